@@ -861,11 +861,23 @@ type gen struct {
 
 func rep(s string, n int) string { return strings.Repeat(s, n)[:n] }
 
+// mb is a key of exactly n bytes made of repetitions of a multi-byte unit, padded with ASCII.
+func mb(unit string, n int) string {
+	k := strings.Repeat(unit, n/len(unit))
+	return k + strings.Repeat("a", n-len(k))
+}
+
 func (g *gen) keyPool() []string {
 	base := []string{"", "k", "k1", "k2", "k10", "a", "ab", "a\x01", "A", "z", "\x7f", "é", "ée", "日本", "ÿ", "\U0001F600",
 		"k\tq", "k q", "k'", "k\"", "k%", "key/with/slash", "-", "0"}
-	long := []string{rep("x", 254), rep("x", 255), rep("x", 256), rep("y", 255), rep("y", 257), rep("z", 300),
-		rep("é", 127) + "a", rep("é", 128), rep("k", 255) + "é"}
+	long := []string{rep("x", 254), rep("x", 255), rep("x", 256), rep("y", 255), rep("y", 257), rep("z", 300)}
+	// keys of 2-, 3- and 4-byte sequences: exact byte lengths around the limit, rune counts far below it
+	for _, unit := range []string{"é", "日", "\U0001F600"} {
+		for _, n := range []int{254, 255, 256, 257, 280, 300} {
+			long = append(long, mb(unit, n))
+		}
+	}
+	long = append(long, mb("é", 255)+"é", "a"+mb("日", 255))
 	n := 3 + g.r.Intn(5)
 	var pool []string
 	for len(pool) < n {
@@ -1091,6 +1103,9 @@ func (r *run) count(line string, x outs) {
 	r.rep.Count("result:" + res)
 	r.rep.Count("store:" + strings.Fields(line)[0])
 	if o, ok := parseOp(line); ok && o.hasK {
+		if len(o.k) > 255 && len([]rune(o.k)) <= 255 {
+			r.rep.Count("keylen:over-255-bytes-under-256-runes")
+		}
 		switch l := len(o.k); {
 		case l == 0:
 			r.rep.Count("keylen:0")
